@@ -19,10 +19,14 @@ def parse_summary(I, func, self_val, args, kwargs, node, fr):
     if isinstance(cons, Obj):
         m = cons.cls.find_method("consume_instruction")
         if m is not None:
-            for k in (1, 2):
+            from .consumerflow import absorb_consumed, list_sizes
+            before = list_sizes(cons)
+            for k in range(1, I.run.user.get("n_insts", 1) + 1):
                 inst = Unknown(f"inst{k}", {"truthy": True, "not_none": True,
                                             "expr": f"inst{k}"})
                 I.call_func(m, [inst], {}, cons, node, fr)
+            if I.run.user.get("abstract_listing", True):
+                absorb_consumed(I, cons, before)
     return NONE
 
 
@@ -44,40 +48,62 @@ class MatchScenario:
         return [e for e in self.path.events if e.kind == "enter" and e.func == qual]
 
 
+def produce_regex_summary(I, func, self_val, args, kwargs, node, fr):
+    I.run.event("produce_regex", y2r=self_val)
+    return Str((Hole("REGEX", "regex", True),))
+
+
+def load_file_summary(I, func, self_val, args, kwargs, node, fr):
+    f = args[0] if args else kwargs.get("file")
+    I.run.event("load_file", file=f)
+    doc = I.run.user.get("rule_doc")
+    if doc is None:
+        return Unknown("loaded_yaml", {"truthy": True, "not_none": True})
+    from .models import lift_skeleton
+    return lift_skeleton(I, doc)
+
+
 def match_interp(program) -> Interp:
     return make_interp(program, {"ObjdumpParserManual.parse": parse_summary,
-                                 "ValidAddrObserver.observe_instruction": valid_addr_summary}, max_paths=60000)
+                                 "ValidAddrObserver.observe_instruction": valid_addr_summary,
+                                 "Yaml2Regex.produce_regex": produce_regex_summary,
+                                 "Yaml2Regex.load_file": load_file_summary}, max_paths=60000)
 
 
 def match_scenarios(I: Interp, file_types=("assembly", "binary"), return_modes=("bool", "matched_addrs_list",
                     "all_instructions_string"), search_modes=("first_find", "all_finds"), only_addrs=(False, True),
-                    ranges=(False, True)) -> List[MatchScenario]:
+                    configs=({}, {"valid_addr_range": {"min": "0x1000", "max": "0x2000"}}),
+                    repeat: int = 1) -> List[MatchScenario]:
+    """MasterOfPuppets(match_config).perform_matching() for every combination; `repeat` > 1 calls
+    perform_matching several times on the same object (results of the last call are returned)."""
     p = I.p
     mop = p.find_class("MasterOfPuppets")
     mc_cls = p.find_class("MatchConfig")
     E = lambda cls, m: EnumV(p.find_class(cls), m)
     out: List[MatchScenario] = []
-    for ft, rm, sm, oa, rg in itertools.product(file_types, return_modes, search_modes, only_addrs, ranges):
-        cfg = {"file_type": ft, "return_mode": rm, "search_mode": sm, "only_addr": oa, "range": rg}
+    for ft, rm, sm, oa, cf in itertools.product(file_types, return_modes, search_modes, only_addrs, configs):
+        cfg = {"file_type": ft, "return_mode": rm, "search_mode": sm, "only_addr": oa, "config": cf}
 
-        def thunk(I: Interp, ft=ft, rm=rm, sm=sm, oa=oa, rg=rg) -> Value:
+        def thunk(I: Interp, ft=ft, rm=rm, sm=sm, oa=oa, cf=cf) -> Value:
+            I.run.user["rule_doc"] = {"config": cf, "pattern": ["nop"]}
             mc = I.construct(mc_cls, [], {
                 "pattern_pathstr": Str((Hole("PATTERN_PATH", "path", True),)),
                 "input_file": Str((Hole("INPUT_FILE", "path", True),)),
                 "input_file_type": E("InputFileType", ft), "return_only_address": TRUE if oa else FALSE,
                 "return_mode": E("MatchingReturnMode", rm), "matching_mode": E("MatchingSearchMode", sm),
                 "macros": NONE}, None, None)
-            cfgobj = I.construct(p.find_class("JASMConfig"), [], {}, None, None)
-            assert isinstance(cfgobj, Obj)
-            cfgobj.fields["$valid_addr_range"] = (Unknown("RANGE", {"truthy": True, "not_none": True}) if rg else NONE)
-            cfgobj.fields["$assembly_style"] = E("DisassStyle", "att")
-            o = Obj(mop, {"match_config": mc, "global_config": cfgobj,
-                          "regex_rule": Str((Hole("REGEX", "regex", True),))})
+            o = I.construct(mop, [], {"match_config": mc}, None, None)
             I.run.user["mop"] = o
+            I.run.user["init_events"] = len(I.run.events)
             m = mop.find_method("perform_matching")
             if m is None:
                 raise AnalysisError("anchor MasterOfPuppets.perform_matching not found")
-            return I.call_func(m, [], {}, o, None, None)
+            r: Value = NONE
+            for k in range(repeat):
+                I.run.user.setdefault("call_marks", []).append(len(I.run.events))
+                r = I.call_func(m, [], {}, o, None, None)
+                I.run.user.setdefault("results", []).append(r)
+            return r
         for path in I.explore(thunk):
             out.append(MatchScenario(cfg, path, path.run.user.get("mop")))
     return out
